@@ -9,6 +9,7 @@ the raw gamma entries, the bound is NOT subtracted) and returns the first index 
 -/
 import FairModel.Properties.C09
 import FairModel.Properties.C06X
+import FairModel.Properties.C07
 
 namespace C09
 open Grid
@@ -498,5 +499,164 @@ example (out : FitOut)
   · rw [hp]; exact ⟨[0, 0, 0, 1], by simp, by decide +kernel⟩
   · exact ⟨"a", ⟨1, "a", none⟩, by decide +kernel, by decide +kernel, rfl⟩
   · rw [hp]; decide +kernel
+
+/-! ## Review R3: clause (b) for the REAL Lagrangian (composition C09 ↔ C07)
+
+`fit_predictor_minimises_lagrangian` (C09) is stated for an abstract `F`.  Here `F` is `Oracle.lagr` = the ErrorRate
+objective (costs `fp`, `fn`) + `λ·γ` of a `UtilityParity` moment `(ev, rows, ratio, ut)` (all five parity moments), the
+constraint weights are `Moments.signedWeights` and the objective weights `ErrorRate.signed_weights()`: the SAME
+functions C07's reduction identity is about.  `Grid.lagr_affine` (from `Oracle.dot_totalW`) provides the affine form on
+0/1 labelings, `Grid.combineWeights_totalW` identifies GridSearch's combined weights with C07's total weights. -/
+
+/-- the data `GridSearch.fit` hands to the estimator at multiplier vector `lam` (objective not in the span):
+    `weights = constraints.signed_weights(lam) + objective.signed_weights()`, then the lifted relabelling -/
+def gridData (ev : Moments.Ev) (rows : List Moments.Row) (ratio : Rat) (ut : Moments.Util) (fp fn : Rat)
+    (lam : List Rat) : List (Nat × Rat) :=
+  relabel (combineWeights false (Moments.signedWeights ev rows ratio ut lam)
+    (Moments.errWeights fp fn (Moments.labelsOf rows) none))
+
+/-- **one grid point**: the estimator trained on the data relabelled / reweighted for `lam` (an exact cost-sensitive
+    learner over the class `H` of 0/1 labelings, or the constant DummyClassifier when the relabelled data has a single
+    label) minimises the REAL `error + λ·γ` over `H` -/
+theorem fit_predictor_minimises_real_lagrangian (ev : Moments.Ev) (rows : List Moments.Row) (ratio : Rat)
+    (ut : Moments.Util) (fp fn : Rat) (lam : List Rat) (learner : List (Nat × Rat) → List Nat) (H : List Nat → Prop)
+    (hne : rows ≠ []) (hy : Moments.Hard (Moments.labelsOf rows))
+    (hH : ∀ h', H h' → h'.length = rows.length ∧ ∀ x ∈ h', x = 0 ∨ x = 1)
+    (hex : ∀ h', H h' →
+      weighted01 (gridData ev rows ratio ut fp fn lam) (learner (gridData ev rows ratio ut fp fn lam)) ≤
+        weighted01 (gridData ev rows ratio ut fp fn lam) h')
+    (hshape : (learner (gridData ev rows ratio ut fp fn lam)).length = rows.length ∧
+      ∀ x ∈ learner (gridData ev rows ratio ut fp fn lam), x = 0 ∨ x = 1) :
+    ∀ h', H h' →
+      Oracle.lagr ev rows ratio ut fp fn lam (toRat (trainAt learner (gridData ev rows ratio ut fp fn lam)))
+        ≤ Oracle.lagr ev rows ratio ut fp fn lam (toRat h') := by
+  unfold gridData at hex hshape ⊢
+  rw [combineWeights_totalW] at hex hshape ⊢
+  have hwl := Oracle.totalW_length ev rows ratio ut fp fn lam
+  have hn : (0 : Rat) < 1 / (rows.length : Rat) := by
+    have := List.length_pos_of_ne_nil hne
+    have h' : (0 : Rat) < (rows.length : Rat) := by exact_mod_cast this
+    positivity
+  exact fit_predictor_minimises_lagrangian_hard learner H (Oracle.totalW ev rows ratio ut fp fn lam)
+    (Oracle.lagr ev rows ratio ut fp fn lam (List.replicate rows.length 0)) (1 / (rows.length : Rat)) hn
+    (fun h => Oracle.lagr ev rows ratio ut fp fn lam (toRat h))
+    (fun h hl hb => lagr_affine ev rows ratio ut fp fn lam h hne (by rw [← hl, hwl]) hy hb)
+    hex (by rw [hwl]; exact hshape) (fun h' hh' => ⟨by rw [hwl]; exact (hH h' hh').1.symm, (hH h' hh').2⟩)
+
+/-- **CLAUSE (b) + (c) FOR THE WHOLE LOOP, real quantities**: run `GridSearch.fit`'s loop (`Grid.fitLoop`) with the
+    signed weights of a parity moment and of the ErrorRate objective and a base learner that is exact over a class `H`
+    of 0/1 labelings.  Then there is one predictor per grid point, each trained on the data relabelled / reweighted for
+    ITS OWN multiplier vector, each minimises `error + λ·γ` for that vector over `H`, and `objectives_` / `gammas_` are
+    the values of exactly those predictors. -/
+theorem fit_trains_real_lagrangian_minimisers (ev : Moments.Ev) (rows : List Moments.Row) (ratio : Rat)
+    (ut : Moments.Util) (fp fn : Rat) (learner : List (Nat × Rat) → List Nat)
+    (objOf : List Nat → Rat) (gamOf : List Nat → List Rat) (cw : Rat) (grid : List (List Rat)) (out : FitOut)
+    (H : List Nat → Prop) (hne : rows ≠ []) (hy : Moments.Hard (Moments.labelsOf rows))
+    (hH : ∀ h', H h' → h'.length = rows.length ∧ ∀ x ∈ h', x = 0 ∨ x = 1)
+    (hex : ∀ w h', H h' → weighted01 (relabel w) (learner (relabel w)) ≤ weighted01 (relabel w) h')
+    (hshape : ∀ w, (learner (relabel w)).length = w.length ∧ ∀ x ∈ learner (relabel w), x = 0 ∨ x = 1)
+    (hfit : fitLoop false (fun lam => Moments.signedWeights ev rows ratio ut lam)
+      (Moments.errWeights fp fn (Moments.labelsOf rows) none) learner objOf gamOf cw grid = some out) :
+    out.preds = grid.map (fun lam => trainAt learner (gridData ev rows ratio ut fp fn lam)) ∧
+    out.objectives = out.preds.map objOf ∧ out.gammas = out.preds.map gamOf ∧
+    ∀ lam ∈ grid, ∀ h', H h' →
+      Oracle.lagr ev rows ratio ut fp fn lam (toRat (trainAt learner (gridData ev rows ratio ut fp fn lam)))
+        ≤ Oracle.lagr ev rows ratio ut fp fn lam (toRat h') := by
+  obtain ⟨hp, _, ho, hg, _⟩ := fit_spec false _ _ learner objOf gamOf cw grid out H hex hfit
+  refine ⟨hp, ho, hg, ?_⟩
+  intro lam _ h' hh'
+  refine fit_predictor_minimises_real_lagrangian ev rows ratio ut fp fn lam learner H hne hy hH
+    (fun h'' hh'' => hex _ h'' hh'') ?_ h' hh'
+  have hs := hshape (combineWeights false (Moments.signedWeights ev rows ratio ut lam)
+    (Moments.errWeights fp fn (Moments.labelsOf rows) none))
+  rw [combineWeights_totalW, Oracle.totalW_length] at hs
+  unfold gridData
+  rw [combineWeights_totalW]
+  exact hs
+
+/-! non-vacuity: DemographicParity on the 4 rows `xFitRows` (2 groups), unit costs, the exact learner `xLearner`
+    ("predict the relabelled target"), `H` = all 0/1 labelings of the 4 rows, two grid points; the first one trains a
+    non-constant predictor -/
+def xLagrFit : Option FitOut :=
+  fitLoop false (fun lam => Moments.signedWeights (Moments.eventOf .dp) xFitRows 1 Moments.defaultUtil lam)
+    (Moments.errWeights 1 1 (Moments.labelsOf xFitRows) none) xLearner
+    (fun p => Moments.errGamma 1 1 (Moments.labelsOf xFitRows) (toRat p))
+    (fun p => Moments.gamma (Moments.eventOf .dp) xFitRows 1 Moments.defaultUtil (toRat p)) (1/2)
+    [[4, 0, 0, 0], [0, 0, 0, 0]]
+
+example : xLagrFit.map (fun o => (o.preds, o.objectives, o.best)) = some ([[0, 0, 1, 1], [1, 0, 1, 0]], [1/2, 0], 1) := by
+  decide +kernel
+
+example (out : FitOut) (h : xLagrFit = some out) :
+    ∀ lam ∈ [[4, 0, 0, 0], [0, 0, 0, (0 : Rat)]], ∀ h' : List Nat, (h'.length = 4 ∧ ∀ x ∈ h', x = 0 ∨ x = 1) →
+      Oracle.lagr (Moments.eventOf .dp) xFitRows 1 Moments.defaultUtil 1 1 lam
+          (toRat (trainAt xLearner (gridData (Moments.eventOf .dp) xFitRows 1 Moments.defaultUtil 1 1 lam)))
+        ≤ Oracle.lagr (Moments.eventOf .dp) xFitRows 1 Moments.defaultUtil 1 1 lam (toRat h') :=
+  (fit_trains_real_lagrangian_minimisers (Moments.eventOf .dp) xFitRows 1 Moments.defaultUtil 1 1 xLearner _ _ (1/2) _ out
+    (fun h' => h'.length = 4 ∧ ∀ x ∈ h', x = 0 ∨ x = 1) (by decide) (by decide +kernel) (fun _ hh => hh)
+    (fun w h' _ => xLearner_exact w h') xLearner_shape h).2.2.2
+
+/-! ### clause (b), BoundedGroupLoss: the regression branch of the loop (`is_classification_reduction = False`)
+
+`Grid.fitLoop` models the classification branch only.  For a loss moment the source passes `y` unchanged and the raw
+weights `constraints.signed_weights(λ)` (objective in the span: nothing is added, nothing relabelled, no `abs`); that
+column of `GridSearch.fit` is `Oracle.callGridLoss` (C07's model over `Generated/OracleSrc.lean`).  Composition with
+`C07.loss_grid_identity`: a learner that minimises the weighted loss it is given minimises `λ·γ` over its class. -/
+
+/-- **BoundedGroupLoss, one grid point**: the learner receives the labels unchanged and the weights
+    `w = signed_weights(λ)` (or, when all labels coincide, a constant DummyClassifier is trained); a predictor `h` that
+    minimises the weighted loss `Σ wᵢ·loss(yᵢ, hᵢ)` over a class `H` minimises `λ·γ(h)` over `H` (any loss of the
+    moment, any rational λ; `rows ≠ []` is needed: for no rows both sides are 0 by `x/0 = 0`, and the source rejects
+    empty data). -/
+theorem bgl_grid_point_minimises_lambda_gamma (l : Moments.Loss) (rows : List Moments.LRow) (lam : List Rat)
+    (hne : rows ≠ []) (H : List Rat → Prop) (h : List Rat)
+    (hmin : ∀ h', H h' →
+      Moments.dot (Moments.bglSignedWeights rows (some lam)) (Moments.lossOf l rows h)
+        ≤ Moments.dot (Moments.bglSignedWeights rows (some lam)) (Moments.lossOf l rows h')) :
+    (Oracle.callGridLoss rows lam = .fit (rows.map (·.y)) (Moments.bglSignedWeights rows (some lam)) ∨
+      ∃ c, Oracle.callGridLoss rows lam = .dummy c (rows.map (·.y)) (Moments.bglSignedWeights rows (some lam)) ∧
+        ∀ r ∈ rows, r.y = c) ∧
+    ∀ h', H h' → Moments.dot lam (Moments.bglGamma l rows h) ≤ Moments.dot lam (Moments.bglGamma l rows h') := by
+  refine ⟨(C07.loss_grid_identity l rows lam h hne).1, ?_⟩
+  intro h' hh'
+  have e := (C07.loss_grid_identity l rows lam h hne).2
+  have e' := (C07.loss_grid_identity l rows lam h' hne).2
+  have hn : (0 : Rat) < (rows.length : Rat) := by
+    have := List.length_pos_of_ne_nil hne
+    exact_mod_cast this
+  have hm := hmin h' hh'
+  rw [e, e'] at hm
+  exact le_of_mul_le_mul_left hm hn
+
+/-- all hypotheses at once: 3 rows, two groups, 0/1 loss, λ = (1, 2); the class {[1,0,0], [0,0,0], [1,1,1]}; the
+    labeling [1,0,0] has weighted loss 3·(1/2) and is the minimiser -/
+example : ∀ h', (h' = [1, 0, 0] ∨ h' = [0, 0, 0] ∨ h' = [1, 1, 1]) →
+    Moments.dot [1, 2] (Moments.bglGamma Moments.Loss.zeroOne [⟨1, "a"⟩, ⟨0, "b"⟩, ⟨1/2, "b"⟩] [1, 0, 0])
+      ≤ Moments.dot [1, 2] (Moments.bglGamma Moments.Loss.zeroOne [⟨1, "a"⟩, ⟨0, "b"⟩, ⟨1/2, "b"⟩] h') :=
+  (bgl_grid_point_minimises_lambda_gamma Moments.Loss.zeroOne [⟨1, "a"⟩, ⟨0, "b"⟩, ⟨1/2, "b"⟩] [1, 2] (by decide)
+    (fun h' => h' = [1, 0, 0] ∨ h' = [0, 0, 0] ∨ h' = [1, 1, 1]) [1, 0, 0]
+    (by rintro _ (rfl | rfl | rfl) <;> decide +kernel)).2
+
+/-- EqualizedOdds: all hypotheses of `gridsearch_eo_end_to_end` on the run `xFitWith` (both groups have both labels) -/
+example (out : FitOut)
+    (h : xFitWith (fun p => Moments.gamma (Moments.eventOf .eo) xFitRows 1 Moments.defaultUtil (toRat p)) = some out) :
+    ∃ _ : out.best < out.preds.length,
+      (∃ D, Fairness.eodds "equalized_odds_difference" .toOverall .worstCase 1
+          (Cross.toFrame (fun r => r.c == none) xFitRows (toRat out.preds[out.best])) = some (.value (XR.fin D)) ∧
+        0 ≤ D ∧ D ≤ 1/2 + (1 - 1) / 1) ∧
+      (∃ D, Fairness.eodds "equalized_odds_difference" .between .worstCase 1
+          (Cross.toFrame (fun r => r.c == none) xFitRows (toRat out.preds[out.best])) = some (.value (XR.fin D)) ∧
+        0 ≤ D ∧ D ≤ 2 * (1/2 + (1 - 1) / 1)) := by
+  have hp := xFitWith_preds _ out h
+  apply gridsearch_eo_end_to_end xFitRows none false (fun lam => lam) [0, 0, 0, 0] (fun d => d.map (·.1))
+    (fun p => (p.map (fun x => if x = 1 then (1 : Rat) / 4 else 0)).sum) 1 [[1, 1, -1, -1], [-1, -1, -1, 1/2]] out (1/2)
+    (by norm_num) (le_refl _) h
+  · rw [hp]; decide +kernel
+  · rw [hp]; decide +kernel
+  · rw [hp]; exact ⟨[1, 1, 0, 0], by simp, by decide +kernel⟩
+  · decide +kernel
+  · decide +kernel
+  · decide +kernel
+  · decide +kernel
 
 end C09
